@@ -1,5 +1,6 @@
 """C19 — graceful shutdown reaches every participant and completes exactly when all finish
-(Shutdown.tla, MCShutdown.tla, GenShutdown.tla, ShutdownTrace.tla; harness/src/bin/c19.rs)."""
+(Shutdown.tla, MCShutdown.tla, GenShutdown.tla, ShutdownTrace.tla; harness/src/bin/c19.rs;
+the per-protocol wind-down: WindDown.tla, MCWindDown.tla, GenWindDown.tla; harness/src/bin/c19w.rs)."""
 import collections
 
 from vlib import *
@@ -41,6 +42,48 @@ def trace_validate(ctx, name, trace, what):
                            "detail": {"kind": "trace", "first_unexplained_line": at,
                                       "round": lines[start:min(at + 3, len(lines))]}})
     return {"lines": len(lines), "rounds": rounds, "accepted": False}
+
+
+WD_ACTIONS = ("Notice", "WindBegin", "H2Final", "H2Close", "WindEnd", "GuardRelease", "CompletionReturn", "ListenerEnd",
+              "Submit", "CompletionBegin", "OtherFinish", "ClientAckPing", "ClientOpens", "ClientReleases")
+
+
+def winddown_jobs(ctx):
+    """WindDown.tla: what a session does between the notification and the release of its guard, per protocol.
+    Exhaustive check; the model of the code as it was must violate; every maximal behaviour replayed on real
+    sessions (HTTP/2, HTTP/1.1: in memory, step by step under a paused clock; HTTP/3: a listening endpoint)."""
+    mc = ctx.tlc("MCWindDown", "MCWindDown.mct.cfg" if ctx.thorough else "MCWindDown.mc.cfg", workers=4, timeout=600, require_actions=WD_ACTIONS)
+    ctx.spec_must_hold(mc)
+    if mc["actions"].get("WorkFails", 0) != 0:
+        raise ToolError("WindDown.tla: WorkFails is reachable although the notification has priority")
+    was = ctx.tlc("MCWindDown", "MCWindDown.asitwas.cfg", workers=4, timeout=600, coverage=False)
+    if not (was["error"] and "ToldWhenWound" in was["error"]):
+        raise ToolError("MCWindDown.asitwas.cfg (select! without priority, the code as it was) must violate ToldWhenWound: %s" % was["error"])
+    ctx.tlc_runs[-1]["error"] = None
+    ctx.tlc_runs[-1]["expected_counterexample"] = "ToldWhenWound"
+    gen = ctx.tlc("GenWindDown", "GenWindDown.gent.cfg" if ctx.thorough else "GenWindDown.gen.cfg", workers=4, timeout=600, coverage=False)
+    ctx.spec_must_hold(gen)
+    r = ctx.harness("c19w", ["--mode", "replay", "--vectors", gen["out"]], name="c19w.replay", env={"VERIF_ROOT": ROOT}, timeout=900)
+    h = ctx.harness("c19w", ["--mode", "h3", "--vectors", gen["out"]], name="c19w.h3", env={"VERIF_ROOT": ROOT}, timeout=1200)
+    if not ctx.violations:
+        need = ("behaviours_h2_speed", "behaviours_h2_ping", "behaviours_h2_tunnel", "behaviours_h1_speed", "behaviours_h1_ping",
+                "witness_in_flight_at_submission", "witness_stream_in_goaway_window", "witness_completion_waits_for_wind_down",
+                "witness_idle_session_told")
+        for k in need:
+            if r["counters"].get(k, 0) == 0:
+                raise ToolError("vacuous wind-down replay: %s is 0" % k)
+        for k in ("witness_submitted_to_a_fresh_session", "witness_submitted_with_a_request_in_flight", "witness_submitted_after_every_request_ended"):
+            if h["counters"].get(k, 0) == 0:
+                raise ToolError("vacuous HTTP/3 wind-down replay: %s is 0" % k)
+        if h["counters"].get("h3_not_run", 0) > 0 or h["counters"].get("h3_behaviours_replayed", 0) == 0:
+            raise ToolError("HTTP/3 wind-down behaviours could not be run: %s" % "; ".join(h.get("notes", [])[:3]))
+    return {"states": mc["distinct"], "transitions": mc["states"],
+            "behaviours": r["counters"].get("tlc_behaviours_replayed", 0) + h["counters"].get("tlc_behaviours_replayed", 0),
+            "in_memory_behaviours": r["counters"].get("tlc_behaviours_replayed", 0),
+            "h3_behaviours": h["counters"].get("tlc_behaviours_replayed", 0),
+            "h3_executions": h["counters"].get("h3_behaviours_replayed", 0),
+            "witnesses": {k: v for src in (r, h) for k, v in src["counters"].items() if k.startswith("witness_") or k.startswith("behaviours_")},
+            "samples": (r["samples"][:2] + h["samples"][:2])}
 
 
 def repo_root():
@@ -110,7 +153,7 @@ def endpoint_job(ctx):
 
 
 def run(ctx):
-    ctx.build("c19")
+    ctx.build("c19", "c19w")
     states = trans = 0
 
     # ---- the specification satisfies the property (exhaustive, small constants) -------------
@@ -190,6 +233,12 @@ def run(ctx):
                                     r["counters"].get("sessions_h1_clean_close_seen", 0) == 0):
             raise ToolError("vacuous sessions job: no GOAWAY / clean close was observed")
 
+    # ---- the per-protocol wind-down composed with the guard (WindDown.tla) ---------------------
+    wd = winddown_jobs(ctx)
+    states += wd["states"]
+    trans += wd["transitions"]
+    behaviours += wd["behaviours"]
+
     # ---- endpoint/src/main.rs: the real process under SIGINT ---------------------------------
     ev_ = endpoint_job(ctx)
     if ev_:
@@ -219,6 +268,7 @@ def run(ctx):
     return ctx.finish("model_checking", {
         "states": states, "transitions": trans,
         "http1_flush_and_close": dj,
+        "wind_down": wd,
         "traces_validated_against_impl": behaviours + traces,
         "replayed_behaviours": behaviours,
         "recorded_traces": traces,
@@ -232,14 +282,24 @@ def run(ctx):
                 "post-state after every step and re-polling every future the specification says cannot progress. Non-trivial = a "
                 "behaviour in which a parked participant is owed a notification or completion() has to park; distinct by event "
                 "sequence. stress/sessions: one recorded round = one trace, accepted line by line by ShutdownTrace.tla with all "
-                "invariants evaluated at every line.",
+                "invariants evaluated at every line. wind-down: every maximal behaviour of GenWindDown (client opens / releases streams, "
+                "acknowledges the PING after the first GOAWAY or opens a stream inside that window; submit, completion()) for the "
+                "speedtest, ping and tunnel sessions over HTTP/2 and HTTP/1.1 is replayed in memory under a paused clock, the state "
+                "predicted by WindDown.tla compared once the session is at rest after every step (frames seen by the client per stream, "
+                "GOAWAY, end of connection, WindBegin/WindEnd/GuardDrop, session task, completion()); the HTTP/3 behaviours run against "
+                "a listening endpoint over loopback QUIC under two schedulers (eventual facts: CONNECTION_CLOSE from the application, "
+                "completion() returns, Core::listen ends Ok). Non-trivial there = work in flight at the submission or a stream in the "
+                "GOAWAY window; for HTTP/3 every (behaviour, scheduler).",
         "samples": samples + ([{"stress_events": tv.get("events")}] if tv and tv.get("accepted") else []),
         "exhaustive": True,
         "explanation": "TLC checks NoLostNotification, CompletionNotEarly, Early/LateRegistration, NoLostCompletionWakeup, GuardWhileLive, "
                        "LockDiscipline, ReturnsOnlyWhenAllFinished exhaustively (N=3; N=4 thorough) and NotificationReaches / "
                        "CompletionReturns* under weak fairness without state constraint (N=2; N=3 thorough). The code is bound in both "
                        "directions: all generated interleavings replayed into the real object, recorded multi-threaded executions and "
-                       "real ping/speedtest sessions (HTTP/2 GOAWAY, HTTP/1.1 close) validated against the trace specification.",
+                       "real ping/speedtest sessions (HTTP/2 GOAWAY, HTTP/1.1 close) validated against the trace specification. "
+                       "WindDown.tla (one action per step of each codec's graceful_shutdown, composed with the guard) satisfies "
+                       "InFlightDelivered, ClosedOnlyWhenDrained, GuardAfterWindDown, CompletionNotEarly, ToldWhenWound, NoHang; its "
+                       "variant with an unprioritised select! (the code as it was) must violate ToldWhenWound.",
     }, assumptions=[
         "bounded: at most 3 (4 thorough) participants exhaustively, 2 submissions, 2 completion() calls; stress rounds have up to 7 participants",
         "Register is atomic (notification_handler + completion_guard under one lock acquisition), as at every call site in the crate",
@@ -248,7 +308,11 @@ def run(ctx):
         "production participants covered by real sessions: http_ping_handler and http_speedtest_handler over Http2Codec and Http1Codec; "
         "Tunnel::listen, reverse_proxy, metrics::listen and Core::listen use the identical register/select/wind-down shape and are "
         "covered through the Shutdown object they share (their doors belong to other checks) and, for Tunnel::listen and Core::listen, "
-        "through the endpoint process job; QUIC close is not covered",
+        "through the endpoint process job; the wind-down itself (WindDown.tla) is replayed on the speedtest, ping and tunnel sessions over "
+        "HTTP/2 and HTTP/1.1 in memory and over HTTP/3 against a listening endpoint; reverse_proxy and metrics sessions are not driven",
+        "wind-down replay: one session at a time; streams stall on the client's flow-control window (HTTP/2), on the client not reading "
+        "(HTTP/1.1), on the client not sending the rest (uploads, HTTP/3); the client is legitimate (opens no stream after it has "
+        "acknowledged the PING, does not hang up); HTTP/3 over real sockets compares eventual facts only, each with a 10 s budget",
         "endpoint/src/main.rs is observed from outside only (real process, SIGINT, HTTP/2 sessions on the main and ping hosts: GOAWAY, "
         "TLS close_notify, exit code); sessions are TLS/HTTP-2, idle, on loopback",
         "trusted: TLC, the flag wakers and the raw HTTP/2 frame peer of the harness, the task-local participant identity of the hooks",
